@@ -138,7 +138,7 @@ class Environment:
     def wavelength(self, value: int | float | WavelengthHandling) -> None:
         """Set wavelength of the detector."""
         if isinstance(value, int | float):
-            if value <= 0.0:
+            if not (value > 0.0):
                 raise ValueError("'wavelength' must be strictly positive.")
         elif not isinstance(value, WavelengthHandling):
             raise TypeError("A WavelengthHandling object or a float must be provided.")
